@@ -7,6 +7,16 @@ roundtrip  numeric DataFrame -> model -> write_model -> read_model -> equal data
 
 The reference reader is written from the text of docs/NONMEM.rst; it has three outcomes
 (value, documented ERROR, unspecified).  Unspecified cases are rejected, never asserted.
+
+Clause ids: <sub>:<kind> or <sub>[<scenario>]:<kind> where kind is one of
+  values / row-count / column-names / id-dtype      read but different from the reference
+  refused-but-readable                               DatasetError although the rules give a value
+  accepted-but-documented-error:<rule>               read although the rules say ERROR
+                                                     (rule: blank-line, space-before-tab, illegal-char,
+                                                     item-too-long, filter-non-numeric, bad-synonym)
+  internal-error:<Type>@<frame>                      anything but DatasetError
+and scenario is the first entry of SCENARIOS present in the case (each one is a recognised
+defect scenario with a predicate of the same name in KNOWN_PREDICATES).
 """
 
 from __future__ import annotations
@@ -123,6 +133,7 @@ def scenario(b):
         first_line = nmdata.data_lines(b.text, b.ic)[0]
         its0, del0 = nmdata.split_row_delims(first_line)
         w0 = len(its0) - (1 if len(its0) > 1 and its0[-1] == '' and del0[-1] == 't' else 0)
+
         def needed(r):  # trailing NULL items are equivalent to padding
             k = min(len(r), n)
             while k > 0 and nmdata.is_null(r[k - 1]):
@@ -150,13 +161,6 @@ def scenario(b):
 
 def _clause(sub, scen, kind):
     return f'{sub}[{scen[0]}]:{kind}' if scen else f'{sub}:{kind}'
-
-
-def _hide_known(scen):
-    # development aid only (sensitivity probes before known_findings.json has the entries):
-    # PV_C13_HIDE_KNOWN=1 turns violations attributed to a known scenario into rejections
-    if scen and os.environ.get('PV_C13_HIDE_KNOWN') == '1':
-        raise Reject('hidden known scenario: ' + scen[0])
 
 
 def _expected(b, pk=False):
@@ -255,7 +259,6 @@ def _compare(sub, b, exp, got_kind, got, scen):
     if exp[0] == 'error':
         if got_kind == 'error':
             return
-        _hide_known(scen)
         raise Violation(
             _clause(sub, scen, f'accepted-but-documented-error:{exp[1]}'),
             observed=got.values.tolist()[:6],
@@ -263,7 +266,6 @@ def _compare(sub, b, exp, got_kind, got, scen):
             detail=_describe(b),
         )
     _, names, drop, rows = exp
-    _hide_known(scen)
     if got_kind == 'error':
         raise Violation(_clause(sub, scen, 'refused-but-readable'), observed=got[:200], expected=rows[:6], detail=_describe(b))
     df = got
@@ -337,7 +339,6 @@ def run_lexical(spec):
             where = innermost_pharmpy_frame(e)
             if where == 'outside-pharmpy':
                 raise
-            _hide_known(scen)
             raise Violation(_clause('lexical', scen, f'internal-error:{type(e).__name__}@{where}'), detail=f'{type(e).__name__}: {str(e)[:300]}; ' + _describe(b))
     _compare('lexical', b, exp, got_kind, got, scen)
     return CaseInfo(nontrivial=nontrivial, classes=tuple(classes), key=spec_hash([b.text, kw]), render=dict(text=b.text, **{k: v for k, v in kw.items()}))
@@ -398,7 +399,6 @@ def run_model(spec):
                 where = innermost_pharmpy_frame(e)
                 if where == 'outside-pharmpy':
                     raise
-                _hide_known(scen)
                 raise Violation(_clause('model', scen, f'internal-error:{type(e).__name__}@{where}'), detail=f'{type(e).__name__}: {str(e)[:300]}; code={code!r} ' + _describe(b))
     finally:
         shutil.rmtree(d, ignore_errors=True)
